@@ -148,3 +148,29 @@ func EvalCodec(mt *MsgType, vals []ref.Val, v2 bool) string {
 	}
 	return ""
 }
+
+// AcceptedShapes splits a corpus of user-defined message structs into those the library
+// accepts (message.ReadWriter.Initialize succeeds) and those it refuses. The properties
+// quantify over "any user-defined message struct the library accepts": a refused struct is
+// outside the quantifier, not a violation (refusals are counted in the evidence).
+func AcceptedShapes(all []message.Message) (accepted []message.Message, refused map[string]string) {
+	refused = map[string]string{}
+	for _, m := range all {
+		rw := &message.ReadWriter{Message: m}
+		var err error
+		func() {
+			defer func() {
+				if e := recover(); e != nil {
+					err = fmt.Errorf("panic: %v", e)
+				}
+			}()
+			err = rw.Initialize()
+		}()
+		if err != nil {
+			refused[reflect.TypeOf(m).Elem().Name()] = err.Error()
+			continue
+		}
+		accepted = append(accepted, m)
+	}
+	return accepted, refused
+}
